@@ -402,8 +402,10 @@ func partA(run *ev.Run, maxKeys int, statuses []state.CheckpointStatus, stamps [
 						for _, ts := range stamps {
 							cp := mkCheckpoint(table, st, ts)
 							tag := fmt.Sprintf("(a) status=%d fed=%d", st, nFed)
-							ref, _ := evalSets(c, tag, cp, table, min, fed, 4)
-							evalSchedule(c, "", tag+" table "+fmtTable(table), cp.GetValidator, ref, ts, 4)
+							ref, ok := evalSets(c, tag, cp, table, min, fed, 4)
+							if ok { // a wrong set is reported under its own key, not again as a wrong schedule
+								evalSchedule(c, "", tag+" table "+fmtTable(table), cp.GetValidator, ref, ts, 4)
+							}
 						}
 					}
 				}
